@@ -32,4 +32,13 @@ OBLIGATIONS = [
         desc="check_directory/did_create_directory/did_check_directory_healthy: record one of 3 contents, then look up one of 12 (same map in either insertion order, and maps built to "
              "collide with it under unwrapped caps / unwrapped names / plain concatenation / different caps / extra entries): the recorded cap is offered iff the name->cap map is identical; "
              "different contents get their own record"),
+    chx("two_uploads", "C42_h", "h_two_uploads", timeout=T,
+        desc="one run uploads two files (check_file -> did_upload twice) where the second cap may already be known (same as the first file's, or from an earlier run; second path with or "
+             "without a previous record): afterwards each path is answered with its own cap, each path's record links to the fileid of its own cap, no cap is registered twice "
+             "(get_or_allocate_fileid_for_cap, incl. sqlite's lastrowid semantics in the table model)"),
+    chx("directory_pairs", "C42_h", "h_directory_pairs", timeout=T,
+        cases={"quick": [{"names2": [0, 1], "caps2": [0, 1, 2, 3], "_label": "concat"}, {"names2": [0, 3], "caps2": [0, 1, 5, 6], "_label": "framing"}],
+               "thorough": [{"_label": "all"}]},
+        desc="single-entry (plus optional common entry) contents with short names/caps over a shared alphabet ({'ab': 'c'} vs {'a': 'bc'}, {'a1:': 'b,'}-style framing look-alikes): "
+             "the recorded directory is found iff the (name, cap) pairs are equal, i.e. the lookup key is injective in the pairs"),
 ]
